@@ -110,7 +110,7 @@ def outcome(fn):
 
 def s1_shape_algebra(ctx):
     chk, rng = ctx.chk, ctx.rng
-    nrand = 12 if ctx.tier == "quick" else 120
+    nrand = 12 if ctx.tier == "quick" else 400
     for shp in ctx.shapes:
         a = L.base_array(shp)
         for ix in L.index_forms(shp, rng, nrand):
@@ -188,7 +188,7 @@ def s2_getitem(ctx):
     import unyt
 
     chk, rng = ctx.chk, ctx.rng
-    nrand = 8 if ctx.tier == "quick" else 80
+    nrand = 8 if ctx.tier == "quick" else 250
     for kind, shp in parents(ctx):
         env = L.make_env(shp, kind)
         x = env["x"]
